@@ -2602,6 +2602,9 @@ class MultiValueColumnUnpivotSegment(BaseSegment):
             parse_mode=ParseMode.GREEDY,
         ),
         Dedent,
+        # Like SingleValueColumnUnpivotSegment, also close the Indent which
+        # UnpivotClauseSegment opens before the UNPIVOT keyword.
+        Dedent,
     )
 
 
